@@ -272,6 +272,9 @@ def parseKeyed (s : String) : Option (Int × Nat) :=
 def handleMm (mac : String) (args : List String) : Option (String × String) :=
   -- `mm.order.*` (order of evaluation of the argument expressions) is not modelled: the model is silent
   if mac.startsWith "order." then some ("?", "?") else
+  -- `mm.evals.*`: the macros bind both argument expressions once (`match ($left, $right) { (left, right) => .. }`),
+  -- so each is evaluated exactly once, as the arguments of std's functions are
+  if mac.startsWith "evals." then some ("ab", "ab") else
   match args with
   | [form, a, b] => do
     let a ← parseKeyed a
